@@ -211,6 +211,8 @@ def check_slots(ck, R1):
 
 
 def check(ck):
+    from .memo import check_new_memo_tables
+    ck.run(check_new_memo_tables, ck, "C15.M1", ('runner_local', 'base', 'storage_base'))
     R1, R2, R3, R4 = ("C15.R%d" % i for i in range(1, 5))
     ck.rule(R2, "alignment: the bulk pre-check is a comprehension over the same sequence, in the same order, that the "
                 "loop enumerates; existing mementos are indexed with the loop index", 3)
